@@ -19,13 +19,13 @@ import (
 )
 
 type recCell struct {
-	mu     sync.Mutex
-	kind   int
-	owner  *recMeter
-	count  int
-	sum    int
-	last   int
-	points map[int]int // observable kinds: callback id → value observed in the current collect
+	mu    sync.Mutex
+	kind  int
+	owner *recMeter
+	count int
+	sum   int
+	last  int
+	name  string
 }
 
 func (c *recCell) rec(v int) {
@@ -181,7 +181,7 @@ func (m *recMeter) get(name string, kind int, mk func(*recCell) any) any {
 	if e, ok := m.insts[key]; ok {
 		return e.obj
 	}
-	c := &recCell{kind: kind, owner: m, points: map[int]int{}}
+	c := &recCell{kind: kind, owner: m, name: name}
 	e := &recEntry{obj: mk(c), cell: c}
 	m.insts[key] = e
 	return e.obj
@@ -244,9 +244,20 @@ func (m *recMeter) RegisterCallback(f metric.Callback, insts ...metric.Observabl
 	return r, nil
 }
 
+// recPoint is one observation an Observer received.
+type recPoint struct {
+	inst  string
+	cb, v int
+}
+
+// recObserver is the Observer of ONE collection cycle of ONE reader for one meter: what a callback observes through
+// it belongs to that collection and to no other.
 type recObserver struct {
 	membedded.Observer
-	m *recMeter
+	m      *recMeter
+	reader int
+	mu     sync.Mutex
+	pts    []recPoint
 }
 
 func (o *recObserver) observe(in any, v int, opts []metric.ObserveOption) {
@@ -255,10 +266,15 @@ func (o *recObserver) observe(in any, v int, opts []metric.ObserveOption) {
 		return // what an SDK does with a foreign instrument: the observation is lost (and visible as such)
 	}
 	set := metric.NewObserveConfig(opts).Attributes()
-	c := ro.obsCell()
-	c.mu.Lock()
-	c.points[cbOf(set)] = v
-	c.mu.Unlock()
+	o.mu.Lock()
+	o.pts = append(o.pts, recPoint{inst: ro.obsCell().name, cb: cbOf(set), v: v})
+	o.mu.Unlock()
+}
+
+func (o *recObserver) points() []recPoint {
+	o.mu.Lock()
+	defer o.mu.Unlock()
+	return append([]recPoint(nil), o.pts...)
 }
 func (o *recObserver) ObserveInt64(in metric.Int64Observable, v int64, opts ...metric.ObserveOption) {
 	o.observe(in, int(v), opts)
@@ -286,9 +302,80 @@ func (p *recMP) Meter(name string, _ ...metric.MeterOption) metric.Meter {
 	return m
 }
 
-// collect runs every live callback once (one collection cycle) and returns instrument name → rendered data,
-// in the format the SDK-backed observation uses.
+// collectObs is one collection cycle of reader `reader`: every live callback of every meter is invoked once with
+// the Observer of this cycle (one per meter, as an SDK pipeline does). Several readers may collect at the same time.
+// The observers are returned; their points are read when every overlapping cycle has finished.
+func (p *recMP) collectObs(reader int) []*recObserver {
+	p.mu.Lock()
+	var ms []*recMeter
+	for _, m := range p.meters {
+		ms = append(ms, m)
+	}
+	p.mu.Unlock()
+	var out []*recObserver
+	for _, m := range ms {
+		m.mu.Lock()
+		var regs []*recReg
+		for _, r := range m.regs {
+			if !r.dead {
+				regs = append(regs, r)
+			}
+		}
+		m.mu.Unlock()
+		o := &recObserver{m: m, reader: reader}
+		out = append(out, o)
+		for _, r := range regs {
+			_ = r.f(context.Background(), o)
+		}
+	}
+	return out
+}
+
+// renderPoints: the observations of one collection cycle, sorted: `<inst>.<cb>.<v>;…` or `-`.
+func renderPoints(obs []*recObserver) string {
+	var pts []recPoint
+	for _, o := range obs {
+		pts = append(pts, o.points()...)
+	}
+	return renderPts(pts)
+}
+
+func renderPts(pts []recPoint) string {
+	sort.Slice(pts, func(a, b int) bool {
+		x, y := pts[a], pts[b]
+		if len(x.inst) != len(y.inst) {
+			return len(x.inst) < len(y.inst)
+		}
+		if x.inst != y.inst {
+			return x.inst < y.inst
+		}
+		if x.cb != y.cb {
+			return x.cb < y.cb
+		}
+		return x.v < y.v
+	})
+	if len(pts) == 0 {
+		return "-"
+	}
+	var ss []string
+	for _, q := range pts {
+		ss = append(ss, q.inst+"."+strconv.Itoa(q.cb)+"."+strconv.Itoa(q.v))
+	}
+	return strings.Join(ss, ";")
+}
+
+// collect runs every live callback once (one collection cycle of reader 0) and returns instrument name → rendered
+// data, in the format the SDK-backed observation uses.
 func (p *recMP) collect() map[string]string {
+	observed := map[string]map[int]int{} // observable instrument → callback id → value of this cycle
+	for _, o := range p.collectObs(0) {
+		for _, q := range o.points() {
+			if observed[q.inst] == nil {
+				observed[q.inst] = map[int]int{}
+			}
+			observed[q.inst][q.cb] = q.v
+		}
+	}
 	p.mu.Lock()
 	var ms []*recMeter
 	for _, m := range p.meters {
@@ -298,25 +385,11 @@ func (p *recMP) collect() map[string]string {
 	data := map[string]string{}
 	for _, m := range ms {
 		m.mu.Lock()
-		var regs []*recReg
-		for _, r := range m.regs {
-			if !r.dead {
-				regs = append(regs, r)
-			}
-		}
 		entries := map[string]*recEntry{}
 		for k, e := range m.insts {
 			entries[k] = e
-			if e.cell.kind >= 8 {
-				e.cell.mu.Lock()
-				e.cell.points = map[int]int{}
-				e.cell.mu.Unlock()
-			}
 		}
 		m.mu.Unlock()
-		for _, r := range regs {
-			_ = r.f(context.Background(), &recObserver{m: m})
-		}
 		for k, e := range entries {
 			name := k[:strings.LastIndex(k, "/")]
 			c := e.cell
@@ -325,13 +398,13 @@ func (p *recMP) collect() map[string]string {
 			switch {
 			case c.kind >= 8:
 				var cs []int
-				for cb := range c.points {
+				for cb := range observed[name] {
 					cs = append(cs, cb)
 				}
 				sort.Ints(cs)
 				var ss []string
 				for _, cb := range cs {
-					ss = append(ss, strconv.Itoa(cb)+":"+strconv.Itoa(c.points[cb]))
+					ss = append(ss, strconv.Itoa(cb)+":"+strconv.Itoa(observed[name][cb]))
 				}
 				s = strings.Join(ss, ";")
 			case c.count == 0:
